@@ -107,7 +107,7 @@ theorem c04_block_roundtrip (inflate : Bytes → Nat → Option Bytes) (d rest :
 at or above `len + 16` -/
 theorem c04_block_size_field (l : UInt64) (h : l < 0x80000000) :
     (pad128 l - l).toUInt32.toUInt64 + l = pad128 l ∧ pad128 l % 128 = 0 ∧ l + 16 ≤ pad128 l ∧ pad128 l < l + 144 := by
-  simp only [pad128]; bv_decide
+  simp only [pad128]; bv_decide (timeout := 300)
 
 /-! ### non-vacuity -/
 
